@@ -138,7 +138,7 @@ class Executor:
         """True / False if the path condition forces the truth value of c (definite unsat of the other side)."""
         for side, other in ((True, z3.Not(c)), (False, c)):
             sol = z3.Solver()
-            sol.set("timeout", 400)
+            sol.set("timeout", 150)
             for h in self.ctx.hyps:
                 sol.add(h)
             sol.add(other)
